@@ -202,7 +202,7 @@ def run(tier):
                 'seeded histories (3-8 operations) over {create ctx i, create duplicate, delete ctx i, delete unknown, worker in ctx i, worker in unknown ctx, enqueue, wait} on ids 1-3 with distinct target defaults per id, '
                 'each against a fresh real server; oracle = dictionary model of the context table; distinct non-trivial = distinct histories')
     r = rng('c18')
-    jobs = [gen_history(r) for _ in range(300 if thorough else 28)]
+    jobs = [gen_history(r) for _ in range(300 if thorough else 60)]
     # fixed corner histories
     jobs += [dict(ops=[['create', 1], ['create', 1], ['worker', 1], ['enqueue', 0, 3], ['delete', 1], ['create', 1], ['worker', 1], ['enqueue', 0, 4]]),
              dict(ops=[['worker', 2], ['delete', 2], ['create', 2], ['worker', 2], ['enqueue', 0, 5]]),
